@@ -467,13 +467,16 @@ def load_known():
         return []
 
 
-def match_known(prop, sig, scenario):
+def match_known(prop, sig, scenario, detail=''):
     for k in load_known():
         if k.get('property') != prop or k.get('status') != 'known':
             continue
         if re.search(k['signature'], sig):
             sm = k.get('scenario_match')
             if sm and not re.search(sm, json.dumps(scenario, sort_keys=True)):
+                continue
+            dm = k.get('detail_match')
+            if dm and not re.search(dm, detail or ''):
                 continue
             return k
     return None
@@ -595,14 +598,14 @@ def check(prop, tier, seed):
             continue
         sig2, path, det = res
         scn = json.load(open(path))['scenario']
-        k = match_known(prop, sig2, scn)
+        k = match_known(prop, sig2, scn, det)
         if k:
             known.append((k, sig2, path))
             continue
         # a known finding of ANOTHER property that ended the run (typically a crash): neither passed nor violated here
         other = None
         for kk in load_known():
-            if kk.get('status') == 'known' and kk.get('property') != prop and match_known(kk['property'], sig2, scn):
+            if kk.get('status') == 'known' and kk.get('property') != prop and match_known(kk['property'], sig2, scn, det):
                 other = kk
                 break
         if other:
